@@ -5,6 +5,10 @@ CONSTANT K5 = 1
 CONSTANT DeepN = 3
 CONSTANT DeepK = 5
 CONSTANT DeepMinLinks = 0
+CONSTANT OrdK = 6
+CONSTANT OrdS = 2
+CONSTANT OrdP = 4
+CONSTANT OrdFull = TRUE
 CONSTANT Mode = "cases"
 INIT Init
 NEXT Next
